@@ -10,14 +10,13 @@ def strip_comment(line):
     return line if k < 0 else line[:k]
 
 
-def clauses_of(text, first_line):
+def clauses_of(text, first_line, section=None):
     """text: contract text of a signature or loop head.  Returns list of dicts
     {section, text, line_start, line_end, tags(list or None)}; line numbers are those of the .vc file.
     A clause ends at a top-level comma or where the next section keyword starts; it takes the `// [tags]` of the line it ends on."""
     out = []
     lines = text.split('\n')
     tag_of = {}
-    section = None
     depth = 0
     cur, cur_start, cur_last = '', None, None
 
@@ -78,14 +77,20 @@ def build_table(vc, meta, unit):
             continue
         n = {}
         if spec.sig:
-            blocks = [spec.sig] + list(spec.sig_extra)
-            for (text, p, ln) in blocks:
-                for c in clauses_of(text, ln):
+            blocks = [(spec.sig, None)] + [(b, 'ensures') for b in spec.sig_extra]
+            for ((text, p, ln), sec0) in blocks:
+                for c in clauses_of(text, ln, sec0):
                     sec = c['section']
                     n[sec] = n.get(sec, 0) + 1
                     ctags = c['tags'] if c['tags'] else ftags
                     name = (c['tags'][0].split('.', 1)[1] if c['tags'] and '.' in c['tags'][0] else None)
-                    oid = '%s/%s#%d' % (base, sec, n[sec]) + (('[%s]' % name) if name else '')
+                    # named clauses are identified by their name (stable when clauses are added), unnamed ones by ordinal
+                    if name:
+                        oid = '%s/%s[%s]' % (base, sec, name)
+                        if any(o['id'] == oid for o in table):
+                            oid = '%s/%s[%s]#%d' % (base, sec, name, n[sec])
+                    else:
+                        oid = '%s/%s#%d' % (base, sec, n[sec])
                     table.append({'id': oid, 'fn': q, 'kind': sec, 'tags': ctags, 'text': c['text'], 'vcfile': p, 'vcline': (c['line_start'], c['line_end']),
                                   'explicit': bool(c['tags'])})
         for k, (iter_name, text, p, ln) in sorted(spec.loops.items()):
@@ -168,4 +173,20 @@ def attribute(diag, table, meta, gen_lines):
             m = TAG_RE.search(gen_lines[gl - 1])
             if m and s['origin'].get('kind') == 'vc':
                 detail['line_tags'] = m.group(1).split()
-    return '%s/body' % [o for o in byfn if o['kind'] == 'body'][0]['id'].rsplit('/body', 1)[0], fn, detail
+    # a finer name for what failed inside the body, stable under renaming of locals in the repository
+    sub = None
+    clean = lambda t: ' '.join(strip_comment(t).split()).rstrip(',;').strip()
+    if 'precondition' in msg:
+        for s in spans:
+            if 'failed precondition' in (s['label'] or ''):
+                o = s['origin']
+                callee = o.get('fn') or ghost_fn_at(gen_lines, s['gen_line']) or '?'
+                sub = 'pre:%s:%s' % (callee, clean(s['text']))
+    elif 'assertion failed' in msg or 'assert' in msg:
+        sub = 'assert:%s' % clean(prim[0]['text'])
+    elif 'overflow' in msg or 'underflow' in msg:
+        sub = 'arith:%s' % clean(prim[0]['text'])
+    else:
+        sub = clean(msg)
+    detail['sub'] = sub
+    return [o for o in byfn if o['kind'] == 'body'][0]['id'], fn, detail
